@@ -24,6 +24,13 @@ BUILD = os.path.join(VERIF, ".build")
 MCPROBE = os.path.join(BUILD, "mcprobe-target", "debug", "mcprobe")
 
 
+
+def _lockfile():
+    """Cargo.lock of the repository under check; it is an ignored file, so a `git worktree` snapshot of /repo has none: fall back to /repo's."""
+    p = os.path.join(os.environ.get("VERIF_REPO", "/repo"), "Cargo.lock")
+    return p if os.path.exists(p) else "/repo/Cargo.lock"
+
+
 def log(*a):
     print(*a, flush=True)
 
@@ -35,7 +42,7 @@ def build_mcprobe():
     lock = os.path.join(d, "Cargo.lock")
     try:
         import shutil
-        shutil.copy(os.path.join(REPO, "Cargo.lock"), lock)
+        shutil.copy(_lockfile(), lock)
     except OSError:
         pass
     env = dict(os.environ, CARGO_NET_OFFLINE="true", CARGO_TARGET_DIR=os.path.join(BUILD, "mcprobe-target"))
